@@ -7,13 +7,14 @@ let canon_date = bytes_of_string "Thu, 01 Jan 1970 00:00:00 GMT"
 let op_of (o : string) : Model.rop =
   let rest = String.sub o 1 (String.length o - 1) in
   match o.[0] with
-  | 'H' -> Model.WithHeader (header_of rest)
+  | 'H' | 'A' -> Model.WithHeader (header_of rest)     (* A: add_header through &mut, the same operation *)
   | 'S' -> Model.WithStatus (n_of_string rest)
   | 'T' -> Model.WithThreshold (n_of_string rest)
   | 'D' -> let (d, l) = split2 ':' rest in Model.WithData (unhex d, opt_n l)
   | _ -> failwith "op"
 
-let rp_ops (f : string array) : Model.rop list = List.map op_of (split_list ';' f.(6))
+(* B = boxed(): the same response behind a trait object; identity in the model *)
+let rp_ops (f : string array) : Model.rop list = List.map op_of (List.filter (fun o -> o <> "B") (split_list ';' f.(6)))
 
 let rp_build (f : string array) : Model.response =
   let ctor = f.(1) and st = n_of_string f.(2) and hs = headers_of f.(3) and body = unhex f.(4)
@@ -199,6 +200,8 @@ let () =
             | "mqx" -> Explore.mqx_case f
             | "mqr" -> Explore.mqr_case f
             | "tpr" -> Explore.tpr_case f
+            | "swr" -> Explore.swr_case f
+            | "su" -> Explore.su_case f
             | "tpx" -> Explore.tpx_case f
             | "tp" -> Explore.tpx_case [| "tpx"; (if Array.exists (fun x -> x = "cfg=a") f then "a" else "f"); f.(1) |]
             | "bs" -> Explore.bs_case f
